@@ -184,7 +184,10 @@ def run_shard(check, tier, seed, shard, nshards, examples, outpath):
     res = {"violation": None, "error": None}
     try:
         check.setup(ctx)
-        v = check.extra(ctx, tier, shard, nshards)
+        try:
+            v = check.extra(ctx, tier, shard, nshards)
+        except Violation as ve:
+            v = ve
         if v is None and examples > 0:
             v = hyp_search(check, ctx, tier, examples, seed * 1000 + shard)
         if v is not None:
